@@ -4,7 +4,7 @@ from harness import common, tlc, dsched, fabdrive
 from checks.conc import ASSUME_B
 
 CLAUSE_PROP = {"Registry": "C06", "Missing": "C06", "NotSubscribed": "C06", "Twice": "C06", "DupSubs": "C06", "GetUnknown": "C06",
-               "Unstable": "C08", "TwoThreads": "C13", "IsAlive": "C13", "StopLeft": "C13", "StartFailed": "C13", "Hang": "C13",
+               "Unstable": "C08", "OutOfTurn": "C08", "TwoThreads": "C13", "IsAlive": "C13", "StopLeft": "C13", "StartFailed": "C13", "Hang": "C13",
                "NoProgress": "C13", "Error": "C13"}
 PROFILES = {
   "C06": {"weights": [40, 40, 6, 4, 3, 3], "min_ops": 5, "max_ops": 12, "resub": 0.2},
@@ -149,6 +149,6 @@ def c13(tier):
   return run.finish()
 
 
-c06 = fabric_check("C06", 1500, 30000)
-c08 = fabric_check("C08", 1500, 30000)
-_c13_fabric = fabric_check("C13", 1500, 30000)
+c06 = fabric_check("C06", 1500, 15000)
+c08 = fabric_check("C08", 1500, 15000)
+_c13_fabric = fabric_check("C13", 1500, 15000)
